@@ -21,6 +21,9 @@ HOLDERS = ["Jane Doe", "ACME, Inc.", "Jane Doe <jane@example.com>", "Example Org
            "Free Software Foundation Europe e.V.", "山田 太郎", "Free Copyright Society", "The © Group", "No (c) Nonsense Ltd"]
 
 
+NOTICE_LIKE_HOLDERS = ["Copyright Clearance Center, Inc.", "\u00a9 Software GmbH", "Copyright (C) Collective"]
+
+
 def asc(s: str) -> str:
     return "".join(c if ord(c) < 128 else "<U+%04X>" % ord(c) for c in s)
 
@@ -188,7 +191,13 @@ def run(ctx: core.Ctx) -> int:
         S = g["S"]
         hs = rnd.sample(HOLDERS, 3)
         hmap = {"H1": hs[0], "H2": hs[1], "H3": hs[2]}
+        # (without a year between prefix and name such a notice IS another documented prefix + a shorter name: outside the domain)
+        notice_like = i % 5 == 2 and all(n["y1"] > 0 for n in S if n["holder"] == "H1")
+        if notice_like:     # a holder whose name begins like a notice: only in notices that exist already (merged, never built from the name)
+            hmap["H1"] = NOTICE_LIKE_HOLDERS[(i // 5) % len(NOTICE_LIKE_HOLDERS)]
         for via in ("api", "cli", "cli-noadd", "cli-new"):
+            if notice_like and via in ("cli", "cli-new") and any(n["holder"] == "H1" for n in S):
+                continue
             if via == "cli" and (i % 2 or any(hmap.get(n["holder"]) == hmap.get(S[-1]["holder"]) and False for n in S)):
                 continue
             if via == "cli-noadd" and (i % 3 or len(S) < 2):
